@@ -421,6 +421,24 @@ def nested_fcfg(rng):
     return {"kind": "fcfg", "prods": prods, "via": rng.choice(["text", "text", "api"])}
 
 
+def shared_struct_fcfg(rng):
+    """one analysis of C ties two STRUCTURE-valued features together (C[f=?x,g=?x] -> D[f=?x]), another one gives them
+    two separate equal structures; the sister E adds different values below f and g: only the untied analysis fits"""
+    a1 = rng.choice(ATOMS)
+    p1, p2 = rng.choice([("x", "y"), ("y", "x"), ("x", "x")])
+    C, D, E = rng.sample(["A", "B", "C", "D", "E", "X1", "Y2", "Pro"], 3)
+    t1, t2 = rng.sample("ab", 2) if rng.random() < 0.7 else ("a", "a")
+    prods = [["S", {}, [["V", C, {"f": "?a", "g": "?b"}], ["V", E, {"f": "?a", "g": "?b"}]]],
+             [C, {"f": "?x", "g": "?x"}, [["V", D, {"f": "?x"}]]],
+             [D, {"f": {"n": a1}}, [["T", t1]]],
+             [C, {"f": {"n": a1}, "g": {"n": a1}}, [["T", t1]]],
+             [E, {"f": {"n": a1, "p": p1}, "g": {"n": a1, "p": p2}}, [["T", t2]]]]
+    if rng.random() < 0.3:
+        prods.append([E, {"f": {"n": a1, "p": p2}, "g": {"n": a1, "p": p2}}, [["T", t2], ["T", t2]]])
+    rng.shuffle(prods)
+    return {"kind": "fcfg", "prods": prods, "via": rng.choice(["text", "api", "api"])}
+
+
 def bars_fcfg(rng):
     """alternatives on one line, each with its own atomic body features: S -> X[f=x] a | X[f=y] b | Y[g=x] X[f=y]"""
     alts = []
@@ -553,12 +571,13 @@ def to_text(prods, bars=False):
     heads = []
     for h, hf, body in prods:
         ht = vtxt(h, hf)
-        if bars and heads and heads[-1] == ht and "?" not in ht and not any(
-                "?" in ftxt(x[2]) for x in body if x[0] == "V"):
+        if bars and heads and heads[-1] == ht:
+            # alternatives of one line share the line's variables; each alternative is used on its own, so a variable
+            # name that occurs in several alternatives (and in the head) means the same as on separate lines
             lines[-1] += " | " + body_text(body)
         else:
             lines.append(ht + " -> " + body_text(body))
-            heads.append(ht if not any("?" in ftxt(x[2]) for x in body if x[0] == "V") else None)
+            heads.append(ht)
     return "\n".join(lines)
 
 
@@ -622,6 +641,9 @@ def plan(tier, rng, sl, nslices, stats):
         c = [rand_fcfg, nested_fcfg, agreement_fcfg, epsilon_fcfg, rand_fcfg][i % 5](rng)
         if i % 10 == 9:
             yield bars_fcfg(rng)
+            continue
+        if i % 10 == 4:
+            yield shared_struct_fcfg(rng)
             continue
         r_ = rng.random()
         if r_ < 0.15:
